@@ -100,6 +100,7 @@ type World struct {
 	ByHash  map[common.Hash]*Sent
 	C10     *C10Model
 	C17     *C17Model
+	C14     *C14State
 	opIdx   int
 }
 
